@@ -37,6 +37,9 @@ THEOREMS = [
     "C12LR_montepy",
     "C12LR_defaulted",
     "C12LR_error_hook",
+    "C12LR_rightmost",
+    "C12LR_complete_flat_geometry",
+    "C12LR_flat_geometry_sentences",
 ]
 UNIT = "U-lr (Model/LR.lean over Gen/LrTables.lean vs sly.yacc.Parser.parse)"
 _INSTALLED = False
